@@ -1353,7 +1353,7 @@ def run(ctx):
     R.expect('M5-refill-until-needed', 4)            # PBF ensure_available_in_input_queue, o5m ensure_bytes_available: condition + success-implies-enough
     R.expect('M6-held-bytes-delivered', 1)           # line_by_line rest
     R.expect('E1-refill-cycle-tests-end-of-input', 4)
-    R.expect('E2-failure-exit-guarded-by-end-of-input', 3)  # PBF throw; o5m return false x2
+    R.expect('E2-failure-exit-guarded-by-end-of-input', 2)  # 3 before the F2 fix removed one failure exit from ensure_bytes_available  # PBF throw; o5m return false x2
     R.expect('X2-xml-final-flag-from-queue-state', 1)
     R.expect('X3-xml-parse-args', 1)
     R.expect('T1-read-thread-forwards-piece', 1)
